@@ -85,6 +85,7 @@ class Scheduler:
         time_leap: bool = False,
         wall_limit: float = 60.0,
         start_time: float = 1_000_000.0,
+        start_delays: tuple[float, ...] = (),
     ) -> None:
         self.ch = ch
         self.log = log if log is not None else EventLog()
@@ -100,6 +101,9 @@ class Scheduler:
         self.switches = 0
         self.max_steps = max_steps
         self.time_leap = time_leap
+        # fault "slow thread start": a thread started BY THE CODE UNDER TEST (SimThreading.Thread.start) may stay
+        # un-scheduled for one of these virtual delays, as on a loaded machine (choice 0 = starts at once)
+        self.start_delays = tuple(start_delays)
         self.wall_limit = wall_limit
         self.abort = False
         self.over = False
@@ -137,18 +141,28 @@ class Scheduler:
         return self._by_ident.get(_REAL_GET_IDENT())
 
     def spawn(self, fn: Callable[..., Any], *args: Any, name: str = "", daemon: bool = False, start: bool = True,
-              **kwargs: Any) -> SimThread:
+              may_delay: bool = False, **kwargs: Any) -> SimThread:
         t = SimThread(self, len(self.threads), name or f"t{len(self.threads)}", fn, args, kwargs, daemon)
         self.threads.append(t)
         if start:
-            self.start_thread(t)
+            self.start_thread(t, may_delay=may_delay)
         return t
 
-    def start_thread(self, t: SimThread) -> None:
+    def start_thread(self, t: SimThread, may_delay: bool = False) -> None:
         if t.started:
             raise RuntimeError("threads can only be started once")
         t.started = True
         t.state = RUNNABLE
+        if may_delay and self.start_delays and self.current() is not None and not self.over:
+            k = self.ch.choose(len(self.start_delays) + 1, "thread.start.delay")
+            if k:
+                self._dseq += 1
+                t.dseq = self._dseq
+                t.state = BLOCKED
+                t.wait_on = ("start-delay", t.sid)
+                t.deadline = self.now + self.start_delays[k - 1]
+                self.ch.fault("thread_start_delayed")
+                self.log.add("start-delay", t.sid, self.start_delays[k - 1])
         real = _REAL_THREAD(target=self._bootstrap, args=(t,), name=f"sim-{t.sid}-{t.name}", daemon=True)
         t.real = real
         real.start()
@@ -744,7 +758,9 @@ class SimThreadHandle:
     def start(self) -> None:
         if self._t is not None:
             raise RuntimeError("threads can only be started once")
-        self._t = self._s.spawn(self._run_wrapper, name=self._name, daemon=self.daemon)
+        # a late *timer* only delays whatever the timer does (a liveness matter the checks bound separately), so the
+        # slow-start fault is for worker threads
+        self._t = self._s.spawn(self._run_wrapper, name=self._name, daemon=self.daemon, may_delay=not isinstance(self, SimTimer))
         self._s.op("thread.start")
 
     def is_alive(self) -> bool:
